@@ -28,7 +28,13 @@ object can observe (message id, the ordinal of its own calls of that hook, the s
 hook call, every push onto `BUF_CTX.events` and every shutdown request is recorded, in program
 order, in one trace of `Item`s.
 
-Not modelled: panics (after a non-caught handler panic `?` skips `incoming_downstream`, i.e. no
+Tasks may be registered with `current().join(h)` / `current().try_join(h)`; instead of sending they
+may panic (caught by tokio, seen only through the join handle) or hang for ever.  `teardown` is
+`ModuleRef::at_sim_end`: the tear-down bracket, during which the join handles are evaluated
+(`NotFinished` / `Paniced` / `Tokio` = cancelled when the module shut down); the join errors are
+*returned* — the bracket is closed (`incoming_downstream`) whatever they are.
+
+Not modelled: panics of hooks and handlers (after a non-caught handler panic `?` skips `incoming_downstream`, i.e. no
 `event_end`; a caught one deactivates the module like a shutdown without reset) and sends from
 `Module::reset`.
 -/
@@ -64,11 +70,28 @@ inductive Action
   | shutdown (restartIn : Option Nat)
 deriving Repr, DecidableEq
 
+/-- what a spawned task does once its sleep is over -/
+inductive TaskFin
+  | send (e : Emit)
+  | panic
+  | hang
+deriving Repr, DecidableEq
+
+/-- whether the task's `JoinHandle` is handed to `current().join` / `current().try_join` -/
+inductive JoinMode
+  | detached | must | try_
+deriving Repr, DecidableEq
+
+structure TaskSpec where
+  fin : TaskFin
+  join : JoinMode
+deriving Repr, DecidableEq
+
 /-- what a handler callback does, in program order: send right away, `tokio::spawn` a task
-    that sleeps `extra + 1` ns and then sends, or request a shutdown -/
+    that sleeps `extra + 1` ns and then sends / panics / hangs, or request a shutdown -/
 inductive HEmit
   | now (e : Emit)
-  | task (extra : Nat) (e : Emit)
+  | task (extra : Nat) (t : TaskSpec)
   | shutdown (restartIn : Option Nat)
 deriving Repr, DecidableEq
 
@@ -199,11 +222,25 @@ def Kind.needsActive : Kind → Bool
   | .wakeup => true
   | _ => false
 
-/-- pending `Sleep`s of a module's tasks: `TimerQueue.pending` flattened (slots ascending by
-    deadline, entries of a slot in registration order), with what the task does when it resumes -/
-abbrev Sleepers := List (Nat × Emit)
+/-- a spawned task: its number (spawn order within the module) and what it does after its sleep -/
+structure Task where
+  id : Nat
+  fin : TaskFin
+deriving Repr, DecidableEq
 
-def insertSleeper : Sleepers → Nat → Emit → Sleepers
+/-- pending `Sleep`s of a module's tasks: `TimerQueue.pending` flattened (slots ascending by
+    deadline, entries of a slot in registration order), with the task that resumes -/
+abbrev Sleepers := List (Nat × Task)
+
+/-- the send of a task that resumes (a task that panics or hangs sends nothing) -/
+def Task.item? (c : Ctx) (t : Task) : Option Item :=
+  match t.fin with
+  | .send e => some (e.toItem c)
+  | _ => none
+
+def wokenItems (c : Ctx) (woken : Sleepers) : List Item := woken.filterMap (fun s => s.2.item? c)
+
+def insertSleeper : Sleepers → Nat → Task → Sleepers
   | [], d, e => [(d, e)]
   | x :: xs, d, e => if x.1 ≤ d then x :: insertSleeper xs d e else (d, e) :: x :: xs
 
@@ -215,6 +252,11 @@ structure ModRt where
   active : Bool                 -- `ModuleContext::active`
   sleepers : Sleepers
   nextWakeup : Option Nat       -- `Driver::next_wakeup`; `none` = `SimTime::MAX`
+  nextTask : Nat                -- tasks spawned so far
+  joins : List (Nat × Bool)     -- registered join handles in registration order: (task, `join` (true) / `try_join`)
+  panicked : List Nat           -- tasks that panicked
+  hung : List Nat               -- tasks that resumed and now wait for ever
+  cancelled : List Nat          -- tasks that were dropped with the runtime when the module shut down
 
 /-- the direct sends and shutdown requests of a handler callback -/
 def hNow (c : Ctx) : List HEmit → List Item
@@ -223,8 +265,8 @@ def hNow (c : Ctx) : List HEmit → List Item
   | .task .. :: r => hNow c r
   | .shutdown x :: r => .down (x.map (c.now + ·)) :: hNow c r
 
-/-- the tasks a handler callback spawns: (deadline of their sleep, what they send afterwards) -/
-def hTasks (c : Ctx) : List HEmit → List (Nat × Emit)
+/-- the tasks a handler callback spawns: (deadline of their sleep, what they are) -/
+def hTasks (c : Ctx) : List HEmit → List (Nat × TaskSpec)
   | [] => []
   | .now _ :: r => hTasks c r
   | .task extra e :: r => (c.now + extra + 1, e) :: hTasks c r
@@ -247,7 +289,7 @@ def handlerItems (c : Ctx) (m : ModRt) (kind : Kind) (out : Option Nat) : List I
   | some (e, hs) => .call e :: hNow c hs
   | none => []
 
-def handlerTasks (c : Ctx) (m : ModRt) (kind : Kind) (out : Option Nat) : List (Nat × Emit) :=
+def handlerTasks (c : Ctx) (m : ModRt) (kind : Kind) (out : Option Nat) : List (Nat × TaskSpec) :=
   match handlerCall c m kind out with
   | some (_, hs) => hTasks c hs
   | none => []
@@ -267,12 +309,21 @@ def activate (c : Ctx) (m : ModRt) : ModRt × Sleepers :=
 def bracket (c : Ctx) (m : ModRt) (kind : Kind) (woken : Sleepers) : ModRt × List Item :=
   let up := upstream c 0 m.elems kind.msg?
   let hItems := handlerItems c m kind up.2.1
-  let asleep := (handlerTasks c m kind up.2.1).foldl (fun s t => insertSleeper s t.1 t.2) m.sleepers
-  let wItems := woken.map (fun s => s.2.toItem c)
+  -- the spawned tasks are numbered in spawn order
+  let spawned := (handlerTasks c m kind up.2.1).zipIdx.map fun p => (p.1.1, p.1.2, m.nextTask + p.2)
+  let asleep := spawned.foldl (fun s t => insertSleeper s t.1 ⟨t.2.2, t.2.1.fin⟩) m.sleepers
+  let wItems := wokenItems c woken
   let down := downstream c 0 up.1
   ({ m with
       elems := down.1
       sleepers := asleep
+      nextTask := m.nextTask + spawned.length
+      joins := m.joins ++ spawned.filterMap (fun t => match t.2.1.join with
+        | .detached => none
+        | .must => some (t.2.2, true)
+        | .try_ => some (t.2.2, false))
+      panicked := m.panicked ++ (woken.filter (fun s => s.2.fin == .panic)).map (·.2.id)
+      hung := m.hung ++ (woken.filter (fun s => s.2.fin == .hang)).map (·.2.id)
       hmsgs := match kind, up.2.1 with
         | .message _, some _ => m.hmsgs + 1
         | _, _ => m.hmsgs
@@ -350,12 +401,19 @@ def downMarks : List Item → Nat → List (Nat × Option Nat)
 
 /-! ## kernel -/
 
+/-- the kinds of `JoinError` of `at_sim_end` -/
+inductive JoinErr
+  | notFinished | paniced | tokio
+deriving Repr, DecidableEq
+
+
 structure Sim where
   mods : List ModRt
   fes : FES.State
   evs : Array KEvent            -- payload table: the FES value of an event is its index here
   log : List Entry
   downs : List (Nat × Nat × Option Nat)   -- shutdown requests: (calls logged before, module, restart time)
+  errors : List (Nat × JoinErr) := []     -- what `run()` returns as `Err` (empty: `Ok`)
   fault : Option String         -- a state the code cannot reach / a panic of the code
 
 /-- `Runtime::add_event` -/
@@ -369,7 +427,9 @@ def Sim.applyShutdown (s : Sim) (mi : Nat) (m : ModRt) (req : Option (Option Nat
   match req with
   | none => s
   | some restart =>
-    let s := { s with mods := s.mods.set mi { m with active := false, sleepers := [] } }
+    let s := { s with mods := s.mods.set mi { m with
+      active := false, sleepers := [], hung := []
+      cancelled := m.cancelled ++ m.sleepers.map (·.2.id) ++ m.hung } }
     match restart with
     | some t => s.schedule (.restart mi) t
     | none => s
@@ -448,9 +508,35 @@ def Sim.simStart (s : Sim) : Sim :=
         if stage < m.handler.stages && m.active then s.moduleEvent mi (.simStart stage) true else s
       | none => s) s) s
 
+/-- the join part of `ModuleRef::at_sim_end`: first the `try_join` handles (a panic is reported, a
+    task that still runs or was cancelled is not), then the `join` handles (still running:
+    `NotFinished`, panicked: `Paniced`, cancelled with the runtime at a shutdown: `Tokio`) -/
+def joinErrors (m : ModRt) : List JoinErr :=
+  let pending (id : Nat) : Bool := m.sleepers.any (fun s => s.2.id == id) || m.hung.contains id
+  (m.joins.filter (fun j => !j.2)).filterMap (fun j =>
+      if pending j.1 then none else if m.panicked.contains j.1 then some .paniced else none)
+  ++ (m.joins.filter (fun j => j.2)).filterMap (fun j =>
+      if pending j.1 then some .notFinished
+      else if m.panicked.contains j.1 then some .paniced
+      else if m.cancelled.contains j.1 then some .tokio
+      else none)
+
+/-- `module.activate(); module.at_sim_end(); module.deactivate(rt)`: the tear-down bracket (the
+    handles are evaluated after the handler and the last poll of the tasks, before
+    `incoming_downstream`; no hook can change a task any more, so they are read off the state after
+    the bracket); the join errors are collected, the bracket is closed regardless -/
+def Sim.teardown (s : Sim) (mi : Nat) : Sim :=
+  let s := s.moduleEvent mi .simEnd false
+  match s.mods[mi]? with
+  | none => s
+  | some m =>
+    { s with
+      mods := s.mods.set mi { m with joins := [] }
+      errors := s.errors ++ (joinErrors m).map (fun e => (mi, e)) }
+
 /-- `SimLifecycle::at_sim_end` -/
 def Sim.simEnd (s : Sim) : Sim :=
-  (List.range s.mods.length).foldl (fun s mi => s.moduleEvent mi .simEnd false) s
+  (List.range s.mods.length).foldl (fun s mi => s.teardown mi) s
 
 structure Config where
   mods : List ModRt
@@ -483,6 +569,6 @@ def buildStack (mode : StackMode) (global own : List Elem) : List ElemRt :=
 /-- a freshly built module -/
 def ModRt.fresh (elems : List ElemRt) (h : Handler) : ModRt :=
   { elems := elems, handler := h, hmsgs := 0, hstarts := 0, active := true, sleepers := [],
-    nextWakeup := none }
+    nextWakeup := none, nextTask := 0, joins := [], panicked := [], hung := [], cancelled := [] }
 
 end Proc
